@@ -6,6 +6,7 @@ VERIF=/verif
 REPO=${VERIF_REPO:-/repo}
 DRV=$VERIF/mirfacts/target/debug/mirfacts
 export CARGO_NET_OFFLINE=true
+export CARGO_INCREMENTAL=0
 if [ ! -x "$DRV" ]; then
   (cd $VERIF/mirfacts && cargo +nightly build --offline >/dev/null 2>$VERIF/build/driver_build.log) || { echo "driver build failed"; cat $VERIF/build/driver_build.log | tail -20; exit 2; }
 fi
